@@ -166,6 +166,40 @@ def run(ck: Check):
                     if r2["outcome"] != "ok" or not c01.bag_equal(base_rows, c01.canon_rows(r2["rows"], [False] * len(r2["columns"]))):
                         ck.fail_input(f"the same joined query with {name} returns different rows", {"models": c["models"], "tables": tables, "query": q, "variant": q2,
                                       "rows": duck.show(r["rows"]), "variant_rows": duck.show(r2.get("rows") or []), "variant_error": r2.get("error")})
+    # segments on joined models: same-named, identically written segments on several models (`{model}.status = 'a'`), used
+    # one at a time and together, also in consecutive queries on ONE SQLGenerator — each must act as its defining predicate
+    # of ITS model (metamorphic: segments=[m.seg] vs filters=[m.status = 'a'] on the real code)
+    from sidemantic.sql.generator import SQLGenerator
+    for i in range(200 if thorough else 25):
+        ms, tables = M.gen_forest(rng)
+        seg_models = [m for m in ms if any(d["name"] == "status" for d in m["dims"])]
+        if not seg_models:
+            continue
+        for m in seg_models:
+            m["segments"] = [{"name": "act", "sql": E.bin_("eq", E.col("{model}.status"), E.lit("a"))}]
+        layer = M.build_layer(ms, tables)
+        gen = SQLGenerator(layer.graph, dialect="duckdb")
+        for _ in range(3):
+            q = dict(M.gen_query(rng, ms), filters=[])
+            used = [m for m in seg_models if rng.random() < 0.7] or seg_models[:1]
+            segs = [f"{m['name']}.act" for m in used]
+            preds = [E.render(E.bin_("eq", E.col(f"{m['name']}.status"), E.lit("a"))) for m in used]
+            try:
+                s_sql = gen.generate(metrics=q["metrics"], dimensions=q["dims"], segments=segs)      # the generator is reused on purpose
+                f_sql = layer.compile(metrics=q["metrics"], dimensions=q["dims"], filters=preds)
+            except Exception:  # noqa: BLE001
+                continue
+            try:
+                rs = c01.canon_rows([list(r) for r in layer.conn.execute(s_sql).fetchall()])
+                rf = c01.canon_rows([list(r) for r in layer.conn.execute(f_sql).fetchall()])
+            except Exception as e:  # noqa: BLE001
+                stats["segment_joined_sql_error"] = stats.get("segment_joined_sql_error", 0) + 1
+                continue
+            stats["segment_joined"] = stats.get("segment_joined", 0) + 1
+            if not c01.bag_equal(rs, rf):
+                ck.fail_input(f"segments {segs} return different rows than their defining predicates {preds} written as filters",
+                              {"models": M.lean_models(ms), "tables": tables, "query": q, "segments": segs, "segment_sql": s_sql[:1500], "rows": str(rs)[:500], "predicate_rows": str(rf)[:500]})
+                break
     jdis = c02.evaluate(ck, jcases, jreals, jstats, label="C04 (joined filters)")
     if jdis and not ck.failing:
         c02.directed_search(ck, [c for c in jcases if c.get("_mismatch")], jstats)
@@ -174,8 +208,8 @@ def run(ck: Check):
     stats["joined_cases"] = len(jcases)
     forms = Counter(f["k"] if f["k"] != "bin" else f["op"] for c in cases for f in c["query"]["filters"])
     ck.coverage.update({
-        "evaluations": len(cases) + stats["variants"] + stats["locality"] + stats["joined_cases"], "joined_filter_cases": stats["joined_cases"], "joined_stats": dict(jstats), "distinct_nontrivial": len(stats["nontrivial"]),
-        "rule": "random single-model definitions with 0-2 segments (with/without {model}) and metric-level filters x tables x queries with 1-4 filters (comparisons, IN, BETWEEN, LIKE, IS [NOT] NULL, NOT, parenthesised OR, AND, hostile literals, metric-value filters); each query also run as one conjunction / permuted / segments-as-predicates / without a filtered companion metric",
+        "evaluations": len(cases) + stats["variants"] + stats["locality"] + stats["joined_cases"], "joined_filter_cases": stats["joined_cases"], "joined_segment_queries": stats.get("segment_joined", 0), "joined_stats": dict(jstats), "distinct_nontrivial": len(stats["nontrivial"]),
+        "rule": "random single-model definitions with 0-2 segments (with/without {model}) and metric-level filters x tables x queries with 1-4 filters (comparisons, IN, BETWEEN, LIKE, IS [NOT] NULL, NOT, parenthesised OR, AND, hostile literals, metric-value filters); each query also run as one conjunction / permuted / segments-as-predicates / without a filtered companion metric; join forests with the same-named, identically written segment on every model that has a status column, queried through one reused SQLGenerator, vs the defining predicates as filters",
         "filter_forms": dict(forms), "variant_queries": stats["variants"], "locality_queries": stats["locality"],
         "outcome_distribution": dict(stats["outcomes"]), "cases_inside_theorem_C01_grouped": stats.get("covered", 0),
         "traces_validated_against_impl": len(cases), "samples": [c01.strip(cases[0]), c01.strip(cases[-1])],
